@@ -50,6 +50,7 @@ type Enc struct {
 	codeImpls []types.Type // dynamic types implementing Code (declared in package)
 
 	sortCache map[types.Type]string
+	selT      map[string]types.Type // Go type of the value a selector yields
 	funs      map[string]*FunDecl // declared uninterpreted functions / constants
 	funOrder  []string
 }
@@ -64,7 +65,7 @@ func NewEnc(prog *ssa.Program, pkg *ssa.Package) *Enc {
 	thePkg = pkg.Pkg
 	e := &Enc{prog: prog, pkg: pkg, tpkg: pkg.Pkg,
 		dts: map[string]*DT{}, ctorOf: map[string]*DTCtor{}, ctorDT: map[string]string{}, selOf: map[string][2]string{},
-		usorts: map[string]bool{}, comps: map[string]*Comp{}, sortCache: map[types.Type]string{}, funs: map[string]*FunDecl{}}
+		usorts: map[string]bool{}, comps: map[string]*Comp{}, selT: map[string]types.Type{}, sortCache: map[types.Type]string{}, funs: map[string]*FunDecl{}}
 	e.addDT(&DT{Name: "Slice", Ctors: []DTCtor{{Name: "mk_Slice", Fields: []DTField{{"sl_arr", SInt}, {"sl_off", SInt}, {"sl_len", SInt}, {"sl_cap", SInt}}}}})
 	// Any: boxed values of interface{}
 	anyCtors := []DTCtor{{Name: "A_nil"}}
@@ -170,7 +171,11 @@ func (e *Enc) Sel(name string, x *Term) *Term {
 	c := e.ctorOf[info[0]]
 	var idx int
 	fmt.Sscan(info[1], &idx)
-	return e.simplify(App(name, c.Fields[idx].Sort, x))
+	r := e.simplify(App(name, c.Fields[idx].Sort, x))
+	if T, ok := e.selT[name]; ok && r.T == nil {
+		r = r.WithT(T)
+	}
+	return r
 }
 
 func (e *Enc) Is(ctor string, x *Term) *Term {
@@ -243,6 +248,7 @@ func (e *Enc) buildCode() {
 	for _, T := range impls {
 		n := e.typeName(T)
 		ctors = append(ctors, DTCtor{Name: "C_" + n, Fields: []DTField{{"C_" + n + "_v", e.SortOf(T)}}})
+		e.selT["C_"+n+"_v"] = T
 	}
 	ctors = append(ctors, DTCtor{Name: "C_other", Fields: []DTField{{"C_other_v", SInt}}})
 	e.addDT(&DT{Name: "Code", Ctors: ctors})
@@ -359,6 +365,7 @@ func (e *Enc) structSort(t types.Type, u *types.Struct) string {
 		for i := 0; i < u.NumFields(); i++ {
 			f := u.Field(i)
 			fs = append(fs, DTField{"sel_" + e.structName(t) + "_" + f.Name(), e.SortOf(f.Type())})
+			e.selT["sel_"+e.structName(t)+"_"+f.Name()] = f.Type()
 		}
 	}
 	e.addDT(&DT{Name: name, Ctors: []DTCtor{{Name: "mk_" + e.structName(t), Fields: fs}}})
